@@ -24,6 +24,7 @@ Proof.
   - apply munch_LQId.
   - apply munch_LBId.
   - apply munch_LDollar.
+  - apply munch_LTriple.
 Qed.
 
 Lemma next_lex_nonword l rest : is_word l = false -> next_lex l rest = (tok_of l, length (render l), rest).
@@ -59,7 +60,7 @@ Qed.
 (* a well-formed lexeme is not empty *)
 Lemma render_ne l : lex_ok l = true -> render l <> [].
 Proof.
-  destruct l as [e| | |ip fp ex|rs|ds|rs|op cl items|op cl items|items|tag body]; cbn [lex_ok render]; intros OK;
+  destruct l as [e| | |ip fp ex|rs|ds|rs|op cl items|op cl items|items|tag body|trs]; cbn [lex_ok render]; intros OK;
     try discriminate.
   - apply existsb_exists in OK. destruct OK as (e' & IN & EQ). apply op_eqb_eq in EQ. subst e'.
     pose proof ops_first_byte as F. rewrite forallb_forall in F. specialize (F _ IN).
